@@ -82,10 +82,10 @@ theorem values_eraseKey_other (m : Assoc K V) (k k' : K) (hk : k' ≠ k) :
   | nil => rfl
   | cons p m ih =>
     by_cases h : p.1 = k
-    · have e1 : eraseKey (p :: m) k = eraseKey m k := by simp [eraseKey, List.filter_cons, h]
+    · have e1 : eraseKey (p :: m) k = eraseKey m k := by simp [eraseKey, h]
       have h2 : ¬ p.1 = k' := fun e => hk (e.symm.trans h)
       rw [e1, ih, values_cons, if_neg h2]
-    · have e1 : eraseKey (p :: m) k = p :: eraseKey m k := by simp [eraseKey, List.filter_cons, h]
+    · have e1 : eraseKey (p :: m) k = p :: eraseKey m k := by simp [eraseKey, h]
       rw [e1, values_cons, values_cons, ih]
 
 theorem localVisit_values_same {O C : Type} (f : V → V × List O × List C) (k : K) (m : Assoc K V) :
@@ -252,6 +252,7 @@ theorem apply_out (u : User K V A) (dflt : V) (m : Assoc K V) (op : Op K V A) :
   | reduce k v rop => simp only [apply, applyK, Op.key]; split <;> rfl
   | erase k => rfl
 
+omit [DecidableEq K] in
 theorem visitVals_cbs_key {O : Type} (g : V → V × List O) (mk : V → Cb K V A) (k : K)
     (hmk : ∀ v, (mk v).key = k) (vs : List V) :
     ∀ cb ∈ (visitVals (fun v => ((g v).1, (g v).2, [mk v])) vs).2.2, cb.key = k := by
@@ -264,6 +265,7 @@ theorem visitVals_cbs_key {O : Type} (g : V → V × List O) (mk : V → Cb K V 
     · rw [h]; exact hmk v
     · exact ih cb h
 
+omit [DecidableEq K] in
 theorem applyK_cb_key (u : User K V A) (dflt : V) (vs : List V) (op : Op K V A)
     (cb : Cb K V A) (h : cb ∈ (applyK u dflt vs op).2.2) : cb.key = op.key := by
   cases op with
@@ -313,6 +315,7 @@ theorem visitVals_length {O C : Type} (f : V → V × List O × List C) (vs : Li
   | nil => rfl
   | cons v r ih => simp [visitVals, ih]
 
+omit [DecidableEq K] in
 theorem visitVals_cbs {O : Type} (g : V → V × List O) (mk : V → Cb K V A) (vs : List V) :
     (visitVals (fun v => ((g v).1, (g v).2, [mk v])) vs).2.2 = vs.map mk := by
   induction vs with
